@@ -161,6 +161,7 @@ type State struct {
 	events   []Event
 	ghost    map[string]string // named ghost scalars (terms)
 	dirty    map[string]bool // heap arrays written at a location that existed before this path (frame)
+	pendingZero []string
 	lit      map[string]map[string]Val // heap array -> literal index -> stored value (fresh objects)
 }
 
@@ -201,6 +202,7 @@ func (s *State) clone() *State {
 		}
 		t.lit[k] = m
 	}
+	t.pendingZero = append([]string(nil), s.pendingZero...)
 	t.dirty = make(map[string]bool, len(s.dirty))
 	for k, v := range s.dirty {
 		t.dirty[k] = v
@@ -269,6 +271,7 @@ type Run struct {
 	pureDepth int
 	curCon   *Contract
 	closable map[string]bool
+	mapZero  map[string]string // Mv array name -> zero term of the element type
 	inInit   bool
 }
 
@@ -312,6 +315,9 @@ func (x *Run) baseArr(name string, epoch int) string {
 	x.mu.Unlock()
 	c := sanitize(fmt.Sprintf("%s$e%d", name, epoch))
 	x.d.raw("c."+c, fmt.Sprintf("(declare-const %s %s)", c, s))
+	if strings.HasPrefix(name, "Mv.") {
+		x.mapZeroAxiom(c, sanitize(fmt.Sprintf("Md.%s$e%d", name[3:], epoch)), name)
+	}
 	if epoch == 0 && refEl {
 		// references held in the initial heap are not objects allocated later
 		if strings.HasPrefix(string(s), "(Array Int (Array") {
@@ -347,6 +353,21 @@ func mapKeySortOfArr(s Sort) string {
 	return "Int"
 }
 
+// mapZeroAxiom: rows of a map value array hold the zero value at absent keys.
+func (x *Run) mapZeroAxiom(valConst, domConst, valName string) {
+	x.mu.Lock()
+	vs := x.arrSorts[valName]
+	ds, ok := x.arrSorts["Md."+valName[3:]]
+	zero := x.mapZero[valName]
+	x.mu.Unlock()
+	if !ok || zero == "" {
+		return
+	}
+	x.d.raw("c."+domConst, fmt.Sprintf("(declare-const %s %s)", domConst, ds))
+	ks := mapKeySortOfArr(vs)
+	x.d.raw("ax.zero."+valConst, fmt.Sprintf("(assert (forall ((m Int) (k %s)) (! (=> (not (select (select %s m) k)) (= (select (select %s m) k) %s)) :pattern ((select (select %s m) k)))))", ks, domConst, valConst, zero, valConst))
+}
+
 func (x *Run) arr(st *State, name string) string {
 	if t, ok := st.heap[name]; ok {
 		return t
@@ -374,6 +395,11 @@ func (x *Run) havocArr(st *State, name string) {
 		return
 	}
 	st.heap[name] = x.d.fresh(name+"$h", s)
+	if strings.HasPrefix(name, "Mv.") {
+		x.mu.Lock()
+		st.pendingZero = append(st.pendingZero, name)
+		x.mu.Unlock()
+	}
 	st.dirty[name] = true
 	delete(st.lit, name)
 }
